@@ -112,6 +112,8 @@ def register(reg):
         "map_exceptions re-raises the first matching mapped class for Exception subclasses only"
     )
     reg.fields(TRACE, "Trace", name="str", return_value="val")
+    # handing a value to the trace callback does not make it shared state of the package
+    reg.non_escaping_keys = set(getattr(reg, "non_escaping_keys", set())) | {"Trace.return_value"}
     reg.fields(SEM, "Sem", ghost=["permits", "bound"], shared=["permits"], permits="int", bound="int")
     reg.fields(EVENT, "Evt", ghost=["flag"], shared=["flag"], flag="bool")
 
